@@ -88,6 +88,36 @@ def cmd_run(name, checks, tier):
     mp.write_text(json.dumps(meta, indent=1) + "\n")
     return 0
 
+def cmd_reconfirm(names):
+    """Re-confirm stored seeds against /repo HEAD: patch applies, tests pass with it, demo fails with / passes without."""
+    head = subprocess.run(["git", "-C", "/repo", "rev-parse", "--short", "HEAD"], capture_output=True, text=True).stdout.strip()
+    clean = scratch(None)
+    try:
+        for name in names:
+            dst = VERIF / "seeded" / name
+            try:
+                d = scratch(dst / "patch.diff")
+            except SystemExit as ex:
+                print(name, "PATCH DOES NOT APPLY", str(ex)[:100])
+                continue
+            try:
+                ok, tail = tests(d)
+                rc_with, _o = demo(d, dst / "demo.py")
+            finally:
+                shutil.rmtree(d)
+            rc_without, _o = demo(clean, dst / "demo.py")
+            good = ok and rc_with != 0 and rc_without == 0
+            print(name, "confirmed" if good else "NOT CONFIRMED", "tests=%s demo_with=%d demo_without=%d" % (ok, rc_with, rc_without))
+            mp = dst / "meta.json"
+            meta = json.loads(mp.read_text())
+            meta["confirmed"] = {"tests_with_patch": tail, "demo_with_patch_rc": rc_with, "demo_without_patch_rc": rc_without,
+                                 "repo_head": head, "valid": good,
+                                 "how": "scratch copy of /repo HEAD (git archive), PYTHONPATH=<copy>, pytest -q -x; demo.py"}
+            mp.write_text(json.dumps(meta, indent=1) + "\n")
+    finally:
+        shutil.rmtree(clean)
+    return 0
+
 def cmd_batch(out_dir, prop, checks):
     """Import every sub-directory (A, B, C ...) of out_dir as the next free <prop>-<n> and run the checks against each."""
     out_dir = Path(out_dir)
@@ -105,6 +135,8 @@ def cmd_batch(out_dir, prop, checks):
 
 if __name__ == "__main__":
     a = sys.argv[1:]
+    if a and a[0] == "reconfirm":
+        sys.exit(cmd_reconfirm(a[1:] or sorted(p.name for p in (VERIF / "seeded").iterdir() if p.is_dir())))
     if a and a[0] == "batch":
         sys.exit(cmd_batch(a[1], a[2], a[3:]))
     if a and a[0] == "import":
